@@ -134,6 +134,10 @@ class Tle:
                 self.name = self.name[2:]
 
         self._check_validity(text)
+
+        # The validity is checked on the lines without their surrounding blanks:
+        # the fields have to be read from the same characters
+        text = [line.strip() for line in text]
         self.text = "\n".join(text)
 
         first, second = text[0], text[1]
